@@ -66,12 +66,22 @@ def main(tier, seed, replay):
     cases = envcheck.run_harness(ck, "srv", runs)
     if cases is None:
         return ck.finish()
+    multi = [c for c in cases if c.get("multi")]
+    cases = [c for c in cases if not c.get("multi")]
+    ck.cov["concurrent_stream_scenarios"] = len(multi)
+    mviol = [c for c in multi if c.get("viol")]
+    ck.oblige(not mviol, "a stream keeps working while sibling streams of its partition end and the partition leaves the session cache (%d scenarios)" % len(multi), str(mviol[:1])[:1500])
     for c in cases:
         if not c.get("viol"):
             m = property_monitor(c)
             if m:
                 c["viol"] = [m]
     viol = [c for c in cases if c.get("viol")]
+    if replay and not cases:      # replay of a concurrent-stream scenario: nothing for the sequential model to compare
+        ck.cov.update({"evaluations": len(multi), "distinct_nontrivial": len(multi), "rule": "replay"})
+        if mviol:
+            ck.violation(ck.replay_file("multi", {"what": mviol[0]["viol"], "Case": mviol[0]}))
+        return ck.finish()
     terms = ["([%s], [%s])" % ("; ".join(req_term(s) for s in c["reqs"]), "; ".join(str(o) for o in c["obs"])) for c in cases]
     bad, errs, dt = vlib.coq_mismatches("c19", "From Asherah Require Import Base.Str Server.Stream Cases.C19Run.",
                                         "list (req srec nat) * list nat", terms, "mismatches_from", shard=600)
@@ -89,7 +99,9 @@ def main(tier, seed, replay):
     })
     ck.cov["trusted_base"] += ["gRPC transport replaced by an in-memory AppEncryption_SessionServer; protobuf accessor semantics (nil-safe getters)",
                                "the SDK session behind the handler is abstract in the theorems (any behaviour); in the comparison it is the real SDK with memory metastore + static KMS"]
-    if viol:
+    if mviol:
+        ck.violation(ck.replay_file("multi", {"what": mviol[0]["viol"], "Case": mviol[0]}))
+    elif viol:
         ck.violation(ck.replay_file("impl", {"what": viol[0]["viol"], "Case": viol[0]}))
     elif bad:
         ck.violation(ck.replay_file("corr", {"obligation": "C19 correspondence (Cases/C19Run)", "Case": cases[bad[0]]}), False)
